@@ -229,14 +229,22 @@ func scanFootprints(root string) (fps []footprint, err error) {
 		for _, tn := range tnames {
 			ms := byType[tn]
 			isPrim, perStream := false, false
+			// handles, keyset entries, key objects and parameters objects are shared between
+			// goroutines just like primitives
+			if rel == "keyset" && (tn == "Handle" || tn == "Entry") {
+				isPrim = true
+			}
 			for _, m := range ms {
 				n := m.decl.Name.Name
-				if primitiveMethods[n] {
+				if primitiveMethods[n] || n == "IDRequirement" || n == "HasIDRequirement" {
 					isPrim = true
 				}
 				if n == "Write" || n == "Read" || n == "Close" {
 					perStream = true
 				}
+			}
+			if rel == "keyset" && tn == "Handle" {
+				perStream = false // Handle.Write serialises the keyset; a Handle is not a stream
 			}
 			if !isPrim || perStream {
 				continue
